@@ -580,7 +580,7 @@ Lemma retry_loop_spec old : forall w k tail n,
   WSide w' /\ cframe w w' /\ WInv w' tail n.
 Proof.
   induction old as [|e rest IH]; intros w k tail n Hi HW HJ HI.
-  - cbn [retry_loop]. repeat split; try apply HW; [apply cframe_refl | exact HI].
+  - cbn [retry_loop]. split; [exact HW|]. split; [apply cframe_refl | exact HI].
   - cbn [retry_loop]. destruct (run_entry cfg fp w k e) as [w1 r] eqn:Er.
     assert (HI' : WInv w (fun t => kabs_e t e ++ (kabs_q t rest ++ tail t)) n).
     { intros t. specialize (HI t). cbn [kabs_q flat_map] in HI. rewrite <- app_assoc in HI. exact HI. }
@@ -589,7 +589,7 @@ Proof.
     destruct r as [|e' cls|cls|].
     + destruct Hr as (S1 & J1 & I1). destruct S1 as (Sa & Sb & Sc & Sd). rewrite Sc.
       destruct (IH w1 k tail n Hi1 (conj Sa (conj Sb (conj Sc Sd))) J1 I1) as (A & B & C).
-      repeat split; auto. eapply cframe_trans; eauto.
+      split; [exact A|]. split; [eapply cframe_trans; [exact F1 | exact B] | exact C].
     + destruct Hr as (Hraw & Hk & Hd & Q1 & S1 & I1). destruct S1 as (Sa & Sb & Sc & Sd). rewrite Sc.
       set (w2 := queue_retry (on_error w1 cls) e').
       assert (F2 : cframe w1 (set_retryq w2 (w_retryq w2 ++ rest))) by (apply cframe_same; reflexivity).
@@ -605,7 +605,7 @@ Proof.
       assert (J2 : J w2 k) by exact J1.
       assert (I2 : WInv w2 (fun t => kabs_q t rest ++ tail t) n) by exact I1.
       destruct (IH w2 k tail n (inited_frame _ _ _ F2 Hi1) S2 J2 I2) as (A & B & C).
-      repeat split; auto. eapply cframe_trans; [exact F1|]. eapply cframe_trans; eauto.
+      split; [exact A|]. split; [|exact C]. eapply cframe_trans; [exact F1|]. eapply cframe_trans; [exact F2 | exact B].
     + contradiction.
 Qed.
 
@@ -621,7 +621,7 @@ Proof.
   assert (J0 : J w0 k) by (split; [constructor | reflexivity]).
   assert (I0 : WInv w0 (fun t => kabs_q t (w_retryq w) ++ tail t) n) by (intros t; apply HI).
   destruct (retry_loop_spec (w_retryq w) w0 k tail n (inited_frame _ _ _ F0 Hi) S0 J0 I0) as (A & B & C).
-  repeat split; auto. eapply cframe_trans; eauto.
+  split; [exact A|]. split; [eapply cframe_trans; [exact F0 | exact B] | exact C].
 Qed.
 
 (* ---------- a request run as a task ---------- *)
@@ -682,7 +682,7 @@ Proof.
       split; [eapply WSide_same_broker; eauto|]. split; [exact F|].
       eapply WInv_ext; [| | | exact HI]; try reflexivity.
       intros t. unfold w'. wsimpl. rewrite kabs_q_app. cbn [kabs_q flat_map kabs_e]. rewrite app_nil_r. reflexivity.
-    + repeat split; try apply HW; [apply cframe_refl | exact HI].
+    + split; [exact HW|]. split; [apply cframe_refl | exact HI].
 Qed.
 
 (* ---------- Resubscribe ---------- *)
@@ -698,13 +698,13 @@ Lemma resub_fold old : forall w k tail n,
   WSide w' /\ cframe w w' /\ WInv w' tail n.
 Proof.
   induction old as [|s rest IH]; intros w k tail n Hi HW HI.
-  - cbn [fold_left]. repeat split; try apply HW; [apply cframe_refl | exact HI].
+  - cbn [fold_left]. split; [exact HW|]. split; [apply cframe_refl | exact HI].
   - cbn [fold_left]. assert (Hh : w_hung w = false) by apply HW. rewrite Hh.
     assert (HI' : WInv w (fun t => kmk KBoth (tsub t [s]) ++ (kabs_q t (d0s rest) ++ tail t)) n).
     { intros t. specialize (HI t). cbn [d0s map kabs_q flat_map kabs_e] in HI. rewrite <- app_assoc in HI. exact HI. }
     destruct (task_subscribe_spec w k 0 [s] _ n Hi HW HI') as (A & B & C).
     destruct (IH _ k tail n (inited_frame _ _ _ B Hi) A C) as (A' & B' & C').
-    repeat split; auto. eapply cframe_trans; eauto.
+    split; [exact A'|]. split; [eapply cframe_trans; [exact B | exact B'] | exact C'].
 Qed.
 
 Lemma d0s_restore t l : coh l -> forall b ok,
